@@ -707,33 +707,77 @@ Proof. intros H. unfold to_double. destruct (Z.ltb_spec s (2 ^ 53)); [reflexivit
 Lemma formatIEC_small s : 0 <= s < 1024 -> formatIEC s = convert s /\ (length (formatIEC s) <= 4)%nat.
 Proof.
   intros H. assert (E : formatIEC s = convert s).
-  { unfold formatIEC. rewrite to_double_small by lia. unfold iec_ladder. cbn [select].
+  { unfold formatIEC, iec_ladder. cbn [select]. rewrite to_double_small by lia.
     destruct (Z.ltb_spec (s * 1) 1024); [reflexivity|lia]. }
   split; [exact E|]. rewrite E.
   pose proof (convert_length s 4 ltac:(lia) ltac:(change (10 ^ Z.of_nat 4) with 10000; lia)) as L.
   destruct (Z.ltb_spec s 0); lia.
 Qed.
 
-(* first integer n with n >= num/den *)
-Definition rung_start (b : Z * Z) : Z := let '(num, den) := b in - ((- num) / den).
-Definition rung_starts (l : list (option (Z * Z) * rung_fmt)) : list Z :=
-  flat_map (fun r => match fst r with Some b => [rung_start b] | None => [] end) l.
+(* first integer at or above the bound num/den of a rung test *)
+Definition rung_bound (t : rung_test) : option Z :=
+  match t with
+  | OnInt num den | OnDouble num den => Some (- ((- num) / den))
+  | Else => None
+  end.
+Definition rung_bounds (l : list (rung_test * rung_fmt)) : list Z :=
+  flat_map (fun r => match rung_bound (fst r) with Some c => [c] | None => [] end) l.
 
-(* both ends of every rung, evaluated in the exact model: last n of the rung below and first n
-   of the rung above each regenerated bound; the one failing end is F-9's *)
-Definition si_end_ok (b : Z) : bool :=
-  (length (formatSI b) <=? 5)%nat &&
-  ((length (formatSI (b - 1)) <=? 5)%nat || (b =? 99950000000000000)).
-Definition iec_end_ok (b : Z) : bool :=
-  (length (formatIEC b) <=? 6)%nat && (length (formatIEC (b - 1)) <=? 6)%nat.
+(* a window of 2201 integers around a bound: wider than twice the spacing of doubles below 2^63
+   (1024), so it contains the last n of the rung below and the first n of the rung above also when
+   the test is made on double(n) *)
+Definition window : list Z := map (fun i => Z.of_nat i - 1100) (seq 0 2201).
+Definition in_dom (n : Z) : bool := (0 <=? n) && (n <? 2 ^ 63).
+Definition window_ok (f : Z -> list byte) (w : nat) (c : Z) : bool :=
+  forallb (fun d => negb (in_dom (c + d)) || (length (f (c + d)) <=? w)%nat) window.
 
-Lemma si_rung_ends : forallb si_end_ok (rung_starts si_ladder) = true /\
-                     (length (formatSI (2 ^ 63 - 1)) <=? 5)%nat = true /\ (length (formatSI 0) <=? 5)%nat = true.
+Definition fmt_same (a b : rung_fmt) : bool :=
+  match a, b with
+  | RInt, RInt => true
+  | RFix p d _, RFix p' d' _ => (p =? p') && (d =? d')
+  | _, _ => false
+  end.
+(* the change of rung happens inside the window: at its lower edge the rung below the bound is
+   selected, at its upper edge the rung above *)
+Fixpoint switches (l : list (rung_test * rung_fmt)) (all : list (rung_test * rung_fmt)) : bool :=
+  match l with
+  | (t, f) :: (((_, f') :: _) as r) =>
+      match rung_bound t with
+      | Some c => (negb (in_dom (c - 1100)) || fmt_same (select (c - 1100) all) f) &&
+                  (negb (in_dom (c + 1100)) || fmt_same (select (c + 1100) all) f')
+      | None => true
+      end && switches r all
+  | _ => true
+  end.
+
+Lemma si_rung_windows :
+  forallb (window_ok formatSI 5) (rung_bounds si_ladder) = true /\ switches si_ladder si_ladder = true /\
+  (length (formatSI (2 ^ 63 - 1)) <=? 5)%nat = true /\ (length (formatSI 0) <=? 5)%nat = true.
 Proof. vm_compute. repeat split. Qed.
 
-Lemma iec_rung_ends : forallb iec_end_ok (rung_starts iec_ladder) = true /\
-                      (length (formatIEC (2 ^ 63 - 1)) <=? 6)%nat = true /\ (length (formatIEC 0) <=? 6)%nat = true.
+Lemma iec_rung_windows :
+  forallb (window_ok formatIEC 6) (rung_bounds iec_ladder) = true /\ switches iec_ladder iec_ladder = true /\
+  (length (formatIEC (2 ^ 63 - 1)) <=? 6)%nat = true /\ (length (formatIEC 0) <=? 6)%nat = true.
 Proof. vm_compute. repeat split. Qed.
 
-Lemma si_width_witness : 0 <= 99949999999999992 < 2 ^ 63 /\ ~ (length (formatSI 99949999999999992) <= 5)%nat.
-Proof. split; [lia|]. vm_compute. intros H. repeat (apply le_S_n in H). inversion H. Qed.
+(* F-9 (fixed in the source: the 10.0P..99.9P rung is chosen on the double): the eight integers
+   that convert to 9.995e16 are printed by the next rung *)
+Definition f9_range : list Z := map (fun i => 99949999999999992 + Z.of_nat i) (seq 0 8).
+Lemma f9_fixed :
+  forallb (fun n => match formatSI n with [x31; x30; x30; x50] => true | _ => false end) f9_range = true /\
+  formatSI 99949999999999991 = [x39; x39; x2e; x39; x50].
+Proof. vm_compute. split; reflexivity. Qed.
+
+Lemma window_ok_use f w c n :
+  window_ok f w c = true -> 0 <= n < 2 ^ 63 -> c - 1100 <= n <= c + 1100 -> (length (f n) <= w)%nat.
+Proof.
+  intros H Hn Hc. unfold window_ok in H. rewrite forallb_forall in H.
+  assert (Hin : In (n - c) window).
+  { unfold window. apply in_map_iff. exists (Z.to_nat (n - c + 1100)). split; [lia|].
+    apply in_seq. lia. }
+  specialize (H _ Hin). replace (c + (n - c)) with n in H by lia.
+  apply orb_prop in H. destruct H as [H|H].
+  - unfold in_dom in H. apply negb_true_iff in H. apply andb_false_iff in H.
+    destruct H as [H|H]; [apply Z.leb_gt in H|apply Z.ltb_ge in H]; lia.
+  - apply Nat.leb_le. exact H.
+Qed.
